@@ -87,6 +87,30 @@ func (e *c18Env) hook(ev *sim.Event) error {
 	return nil
 }
 
+// nodeHook: the calls the wallet makes to the NODE's database (blocks, transactions, the script-hash
+// index) are storage calls of the wallet's operations too; they share the numbering with the wallet
+// database calls, so every one of them is failed once as well.
+func (e *c18Env) nodeHook(method string) error {
+	if sim.CallerRole() == "api" && atomic.LoadInt32(&e.apiActive) == 0 {
+		return nil // the harness's own reads (ledger, observation)
+	}
+	n := atomic.AddInt64(&e.counter, 1)
+	if e.failAt > 0 && n >= e.failAt && n < e.failAt+e.failLen && atomic.LoadInt32(&e.fired) == 0 {
+		if os.Getenv("VERIF_C18_ONLY") != "" {
+			fmt.Fprintf(os.Stderr, "C18DBG inject #%d at call %d: node-db %s step=%v\n", atomic.LoadInt64(&e.fires)+1, n, method, e.stepTag.Load())
+		}
+		if atomic.AddInt64(&e.fires, 1) == 1 {
+			atomic.StoreInt32(&e.hit, 1)
+			e.firedKind = "node-db:" + method
+			if s, ok := e.stepTag.Load().(string); ok {
+				e.firedStep = s
+			}
+		}
+		return sim.ErrInjected
+	}
+	return nil
+}
+
 func (e *c18Env) begin(step string) int64 {
 	e.stepTag.Store(step)
 	return atomic.LoadInt64(&e.counter)
@@ -469,8 +493,10 @@ func c18Run(t *core.T, seed uint64, dir string, failAt, failLen int64, record bo
 	e.wd = &sim.World{T: t, R: e.rs, N: n, W: w, NoDrop: true}
 	e.wd.StrangerPub()
 	w.DB.SetHook(e.hook)
+	n.Wrap.SetHook(e.nodeHook)
 	serr := e.scenario()
 	w.DB.SetHook(nil)
+	n.Wrap.SetHook(nil)
 	var obs *sim.Obs
 	if serr == nil {
 		if fe := sim.FatalEvents(); len(fe) > 0 {
